@@ -144,14 +144,27 @@ def run(cx):
     cx.floor("C14.R2", 7)
 
     # ---- R3 ---------------------------------------------------------------------------------------
-    for name, whole in (("get_exprs", False), ("get_expr", True)):
-        h = m.one(r"^acts::utils::convert::%s$" % name)
-        pats = []
+    def patterns_in(h):
+        out = []
         for c in h.calls():
             if c.q.endswith("Regex::new"):
                 p = pv.root(h, c.args[0])
                 if p[0] == "const" and p[1].get("str") in h.regexes:
-                    pats.append((p[1]["str"], h.regexes[p[1]["str"]], c))
+                    out.append((p[1]["str"], h.regexes[p[1]["str"]], c))
+        return out
+
+    def anchored(hir):
+        return hir[0] == "cat" and hir[1] and hir[1][0] == ["look", "Start"]
+
+    for name, whole in (("get_exprs", False), ("get_expr", True)):
+        h = m.one(r"^acts::utils::convert::%s$" % name)
+        pats = patterns_in(h)
+        if not pats:
+            # the pattern may be compiled once in a static of the module (`static RE: LazyLock<Regex> = ..`): the two
+            # template patterns are told apart by what they are (the whole-string one is anchored)
+            for q, g in m.fns.items():
+                if q.startswith("acts::utils::convert::") and g is not h:
+                    pats += [x for x in patterns_in(g) if anchored(x[1]) == whole and "{" in x[0]]
         if len(pats) != 1:
             raise Anchor("%s: expected one regex literal" % name)
         pat, hir, c = pats[0]
@@ -197,7 +210,25 @@ def run(cx):
                 if any(g.root[0] == "call" and g.root[1].endswith("::is_empty") and g.truth is True for g in gsx):
                     okc = True
     cx.ob("C14.R4", "fill_params:verbatim", okc, "a string without templates is returned as a clone of the parameter", fp.loc())
-    cx.floor("C14.R4", 2)
+    # the evaluated value is inserted as it is: `str::replace(expr, value)` (or a regex replacement wrapped in NoExpand).
+    # `Regex::replace*(text, value)` with a plain string EXPANDS `$1`, `$name`, `${..}` in the value: "$100" becomes ""
+    fps = [fp] + [g for q, g in m.fns.items() if q.startswith(fp.q + "::{closure")]
+    subst = []
+    for g in fps:
+        for c in g.calls():
+            if re.search(r"regex::(regex::string::)?Regex::replace(_all|n)?(::<.*>)?$", c.q):
+                subst.append((c, "NoExpand" in c.full))
+            elif re.search(r"^std::str::<impl str>::replace(n)?(::<.*>)?$|^alloc::str::<impl str>::replace(n)?(::<.*>)?$|String::replace_range", c.q):
+                subst.append((c, True))
+    if not subst:
+        cx.undecide("C14.R4", "fill_params: no substitution call (str::replace / Regex::replace) was recognised")
+    else:
+        bad = [c for c, ok_ in subst if not ok_]
+        cx.ob("C14.R4", "fill_params:literal-substitution", not bad,
+              "an embedded template is replaced by the evaluated value taken literally%s" % (
+                  "" if not bad else " - but `%s` is given the value as a replacement STRING, in which the regex crate expands `$1` / `$name` / `${..}`: a value such as \"$100\" or \"$HOME/x\" is mangled" % short_name(bad[0].q)),
+              (bad or [subst[0][0]])[0].loc)
+    cx.floor("C14.R4", 3)
 
 
 def _is_field(r, name):
